@@ -105,8 +105,11 @@ func TestProp(t *testing.T) {
 // the entry, byte 1 the type argument, the rest is the input.
 func FuzzRoundTrip(f *testing.F) {
 	names := lib.Names()
-	for i := range names {
+	for i, n := range names {
 		f.Add([]byte{byte(i), 7})
+		for _, in := range gen.FixedInputs(n) { // seed corpus: well-formed encodings
+			f.Add(append([]byte{byte(i), byte(in.Typ)}, in.Bytes()...))
+		}
 	}
 	prop.Fuzz(f, func(b []byte) (Case, bool) {
 		if len(b) < 2 || len(b) > 70000 {
